@@ -197,6 +197,8 @@ class FetchAttribute(Parseable[bytes]):
             return self._raw
         if self.value == b'BODY.PEEK':
             parts = [b'BODY']
+        elif self.value == b'BINARY.PEEK':
+            parts = [b'BINARY']
         else:
             parts = [self.value]
         if self.section and not self.value.startswith(b'RFC822'):
